@@ -72,6 +72,9 @@ type Session struct {
 	ReuseBuf bool
 	// RetryFinish: a Finish that fails is called once more (a client that retries the save)
 	RetryFinish bool
+	// AppUsesStore (persisted mode): the application's functions use the persister's store handle for their own
+	// data (Env.Store)
+	AppUsesStore bool
 	// SharedPe, when set (persisted mode), is used for every request instead of a new persister: one
 	// long-lived flushing persister that serves several sessions, re-pointed with WithSession.
 	SharedPe *persist.Persister
@@ -147,6 +150,9 @@ func (s *Session) newEngine() (*engine.DefaultEngine, *persist.Persister) {
 	} else if s.Mode == Persisted || s.Mode == KeptEngine {
 		store := s.Open()
 		store.SetSession(s.Cfg.SessionId)
+		if s.AppUsesStore {
+			s.Env.Store = store
+		}
 		pe = persist.NewPersister(store)
 		if s.Flush {
 			pe = pe.WithFlush()
